@@ -159,6 +159,58 @@ def verdict(spec):
         return e
 
 
+def _interleave(el):
+    """reorder children so that same-named siblings are no longer contiguous (A A B -> A B A), recursively; returns True if anything moved"""
+    moved = False
+    kids = list(el)
+    tags = [k.tag for k in kids]
+    for t in dict.fromkeys(tags):
+        idx = [i for i, x in enumerate(tags) if x == t]
+        others = [i for i, x in enumerate(tags) if x != t]
+        if len(idx) >= 2 and others:
+            order = [idx[0]] + others + idx[1:]
+            for k in kids:
+                el.remove(k)
+            for i in order:
+                el.append(kids[i])
+            moved = True
+            break
+    for k in el:
+        moved = _interleave(k) or moved
+    return moved
+
+
+def parsed_verdicts(spec):
+    """the statement is about *parsed* messages: serialise the instance, parse the text back (as it is, and with same-named siblings made non-contiguous) and validate that"""
+    from xml.etree import ElementTree as ET
+    from saml2_tophat import create_class_from_xml_string
+    cls = G.classes()[spec['cls']]
+    try:
+        text = G.build(spec).to_string()
+    except Exception:
+        return []
+    out = []
+    root = ET.fromstring(text)
+    variants = [('parsed', text)]
+    if _interleave(root):
+        variants.append(('parsed-interleaved', ET.tostring(root)))
+    for name, t in variants:
+        try:
+            obj = create_class_from_xml_string(cls, t)
+        except Exception as e:
+            out.append((name, e))
+            continue
+        if obj is None:
+            out.append((name, ValueError('not parsed')))
+            continue
+        try:
+            obj.verify()
+            out.append((name, None))
+        except Exception as e:
+            out.append((name, e))
+    return out
+
+
 def run_enum(case):
     cn = case['cls']
     spec = valid_spec(cn, 0 if case.get('shape') == 'min' else 1, 0)
@@ -176,12 +228,20 @@ def run_enum(case):
         if e is not None:
             raise Violation('valid-rejected', '%s: an instance satisfying every declared constraint is rejected: %s: %s' % (cn, type(e).__name__, str(e)[:200]),
                             detail={'type': type(e).__name__})
+        for route, e2 in parsed_verdicts(top):
+            if route == 'parsed' and e2 is not None:
+                raise Violation('valid-rejected', '%s: an instance satisfying every declared constraint is rejected after serialise + parse: %s: %s' % (cn, type(e2).__name__, str(e2)[:200]),
+                                detail={'type': type(e2).__name__})
         return 'valid|' + ('nested' if case.get('placement') else 'root') + '|' + case.get('shape', 'full'), True
     if not problems:
         raise ValueError('harness: fault %r on %s is not a fault by the reference validator' % (fault, cn))
     e = verdict(top)
     if e is None:
         raise Violation('invalid-accepted', '%s: fault %r (%s) under %r is accepted by validation' % (cn, fault, problems[0], case.get('placement', [])), detail={'fault': fault})
+    for route, e2 in parsed_verdicts(top):
+        if e2 is None:
+            raise Violation('invalid-accepted', '%s: fault %r (%s) under %r is accepted by validation of the %s message' % (cn, fault, problems[0], case.get('placement', []), route),
+                            detail={'fault': fault, 'route': route})
     return 'fault|%s|%s' % (fault[0], 'depth%d' % len(case.get('placement', []))), True
 
 
@@ -255,6 +315,15 @@ def run_generated(case):
     e = verdict(spec)
     if problems and e is None:
         raise Violation('invalid-accepted', '%s: %s is accepted by validation' % (spec['cls'], problems[0]), detail={'fault': f})
+    routes = parsed_verdicts(spec)
+    for route, e2 in routes:
+        if problems and e2 is None:
+            raise Violation('invalid-accepted', '%s: %s is accepted by validation of the %s message' % (spec['cls'], problems[0], route), detail={'fault': f, 'route': route})
+        if not problems and e2 is not None and route == 'parsed':
+            raise Violation('valid-rejected', '%s: an instance satisfying every declared constraint is rejected after serialise + parse: %s: %s' % (spec['cls'], type(e2).__name__, str(e2)[:200]),
+                            detail={'type': type(e2).__name__})
+    if any(r == 'parsed-interleaved' for r, _ in routes):
+        label += '|interleaved'
     if not problems and e is not None:
         raise Violation('valid-rejected', '%s: an instance satisfying every declared constraint is rejected: %s: %s' % (spec['cls'], type(e).__name__, str(e)[:200]),
                         detail={'type': type(e).__name__})
@@ -271,6 +340,8 @@ def parts(tier):
 
 def known_match(part, case, v):
     f = (v.detail or {}).get('fault') if v.bucket == 'invalid-accepted' else None
+    if f and f[0] == 'above-max' and (v.detail or {}).get('route') in ('parsed', 'parsed-interleaved') and f[2] >= 2 and 'maximum 1' in v.msg:
+        return 'C13-repeated-singular-child-collapsed-by-parser'
     if f and f[0] in ('attr-type', 'text-type'):
         for key, (tn, values) in G.LENIENT_KNOWN.items():
             if f[-1] in values and tn in v.msg:
